@@ -267,6 +267,11 @@ theorem link_step (s s' : St) (e : Ev) (ms : C04St) (hl : LinkA s ms) (ha : AllR
     split at hs
     · simp at hs; subst hs; exact ⟨ms, rfl, hl.frame rfl rfl⟩
     · cases hs
+  | envDo c =>
+    simp only [step, stepI] at hs
+    split at hs
+    · simp at hs; subst hs; exact hl.frame rfl rfl
+    · cases hs
   | envCancelW a =>
     simp only [step, stepI] at hs
     split at hs
